@@ -17,12 +17,37 @@ def run(chk):
                                      race=True)
     for v in res["violations"] or []:
         chk.violation(v["sig"], v["desc"], dict(kind="c05-framing", detail=v))
-    chk.cov["traces_validated_against_impl"] = res["scenarios"]
-    chk.cov["evaluations"] = res["scenarios"]
-    chk.cov["distinct_nontrivial"] = res["distinct"]
-    chk.cov["rule"] = "forced two-writer interleavings (codec on/off, queue size 1/2) + free-running G senders on in-memory conn and loopback TCP"
-    for s in res["samples"] or []:
+    # content: TLC-enumerated operation shapes through the real encoder, decoded independently at the server
+    gw = vlib.scratch("verif-c05c-")
+    g = vlib.run_tlc("Gen_Wire", workers=1, timeout=300, workdir=gw)
+    vlib.tlc_must_pass(g, "Gen_Wire")
+    chk.add_tlc(g)
+    g2 = vlib.run_tlc("Gen_KeyValue", workers=1, timeout=300, workdir=gw)
+    vlib.tlc_must_pass(g2, "Gen_KeyValue")
+    chk.add_tlc(g2)
+    t2 = vlib.go_test("region", "^TestVerifC05Content$", env=dict(VERIF_IN=gw, VERIF_OUT=gw, VERIF_SEED=str(chk.seed)), timeout=1700, race=False)
+    resf = os.path.join(gw, "c05c_result.json")
+    if not os.path.exists(resf) or t2["rc"] != 0:
+        v = vlib.classify_panic(t2["out"])
+        if v:
+            chk.violation(v["sig"], v["desc"], dict(kind="panic"))
+            return
+        raise vlib.MachineryError("C05 content driver failed:\n" + t2["out"][-3500:])
+    rc = json.load(open(resf))
+    for v in rc["violations"] or []:
+        chk.violation(v["sig"], v["desc"], dict(kind="c05-content", detail=v))
+    chk.cov["traces_validated_against_impl"] = res["scenarios"] + rc["scenarios"]
+    chk.cov["evaluations"] = res["scenarios"] + rc["distinct"]
+    chk.cov["distinct_nontrivial"] = res["distinct"] + rc["distinct"]
+    chk.cov["rule"] = ("framing: forced two-writer interleavings (codec on/off, queue size 1/2) + free-running G senders on the in-memory conn and "
+                       "on loopback TCP; content: every query-option combination of the TLC scope (2048 gets: families x time range x versions x "
+                       "store limit/offset x cache blocks x priority x consistency x filter x exists-only), every mutation shape of C10 (852) with "
+                       "rotating durability / TTL, 32 scan shapes with random query options, each for codec {none, snappy} x queue size {1,4,8} "
+                       "(multi groupings of 1..8 calls over two regions), random byte rows, one value in 97 above the snappy chunk size; the "
+                       "expected request fields come from the specification (Wire.tla ExpectedQuery / ExpectedScan, KeyValue.tla Denotes)")
+    for s in (res["samples"] or []) + (rc["samples"] or []):
         chk.sample(s)
+    chk.assumptions += ["the protobuf library is trusted for message bodies; filters are compared by class name, not interpreted"]
 
 
 def replay(chk, rep):
